@@ -173,6 +173,31 @@ def check_cfg(ctx, fx, cfg):
         ctx.require(r.startswith("actor::service::"), "R08.1", "registry-user:%s@%s" % (r, cfg), "the service registry is accessed outside the registry operations of actor::service", fn=r, site=fx.fn(r)["loc"] if fx.fn(r) else None)
     if cfg != "bare":
         check_forwarders(ctx, fx, cfg, None)
+    # R08.7 "register fails exactly when a live instance is registered" is decided in one place, under the lock: the
+    # ServiceStillRunning error is constructed only by registry operations, and every other caller of Addr::register
+    # (the builder's register) is a plain forwarder that reaches it on every path
+    from mir import agg_sites
+    made = []
+    for f in fx.d["fns"]:
+        fb = ctx.body(fx, f)
+        for _bi, _si, st in agg_sites(fb, adt="error::ActorError", variant="ServiceStillRunning"):
+            made.append((f.get("root", f["def"]), f["def"], st.get("l")))
+    if cfg != "bare":
+        ctx.floor("R08.7", "constructions of ServiceStillRunning (%s)" % cfg, len(made), 1)
+    for root, fn_, loc in made:
+        ctx.require(root in roots_, "R08.7", "still-running-decided-under-lock:%s@%s" % (fn_, cfg), "ServiceStillRunning is reported outside the registry's critical section (an unlocked check-then-act: the answer can be stale, and a terminated entry is not replaced)", fn=fn_, site=loc)
+    REG = "actor::service::<impl addr::Addr<A>>::register"
+    from props.c04 import check_forward_always
+    n_fw = 0
+    for g in fx.d["fns"]:
+        if g.get("root", g["def"]) in roots_:
+            continue
+        gb = ctx.body(fx, g)
+        if any(t.get("callee") == REG for _, t in gb.normal_calls()):
+            n_fw += 1
+            check_forward_always(ctx, fx, "R08.7", "register-forwarder:%s@%s" % (g["def"], cfg), g, lambda x: x.get("callee") == REG)
+    if cfg != "bare":
+        ctx.floor("R08.7", "forwarders to Addr::register (%s)" % cfg, n_fw, 1)
     # R08.6 the liveness the registry decides on is truthful for every termination cause (shared with C14)
     from props import c14
     c14.check_queries(ctx, fx, "R08.6", "@" + cfg)
